@@ -65,7 +65,7 @@ let () =
              | "Q" -> let a = q4 () in let b = q4 () in Printf.printf "%s %s\n" (hex (qdot fops a b)) (hex (qnorm2 fops a))
              | _ -> let n = ni () in let a = List.init n (fun _ -> nf ()) in let b = List.init n (fun _ -> nf ()) in
                Printf.printf "%s %s\n" (hex (vec_inner fops a b)) (hex (vec_inner fops a a)))
-         | "CD" | "CW" | "HB" | "FV" ->
+         | "CD" | "CW" | "HB" | "FV" | "ML" ->
            let kind = next () in let wc = nf () in let n = ni () in
            let k = (match kind with
                | "distance" | "eulerTheta" | "polarTheta" | "tilt" | "orientationAngle" | "dihedralCoeff2" -> KScalar
@@ -96,6 +96,11 @@ let () =
            if w.(0) = "HB" then begin
              let kk = nf () in let ww = nf () in let a = rd () in let b = rd () in
              (match hr_energy fops pi kk ww k a b, hr_force fops pi kk ww k a b with
+              | Some e, Some f -> Printf.printf "%s %s\n" (hex e) (pv f)
+              | _ -> Printf.printf "typeerror\n")
+           end else if w.(0) = "ML" then begin
+             let ww = nf () in let sg = nf () in let a = rd () in let b = rd () in
+             (match hill_energy fops pi ww sg k a b, hill_force fops pi ww sg k a b with
               | Some e, Some f -> Printf.printf "%s %s\n" (hex e) (pv f)
               | _ -> Printf.printf "typeerror\n")
            end else if w.(0) = "FV" then begin
@@ -137,6 +142,10 @@ let () =
             | Some d, Some g, Some rg ->
               Printf.printf "%s %s %s %s %s %s %s\n" (hex fl_) (hex pp) (hex cc) (hex d) (sv g) (sv rg) (sv (comp_wrap fops k (VS xw)))
             | _ -> Printf.printf "typeerror\n")
+         | "OK" -> let pp = nf () in let c = nf () in let h = nf () in let kc = nf () in let sg = nf () in let cut2 = nf () in let vac = nf () in let x = nf () in
+           (match opes_kernel fops pi h sg cut2 vac (KPeriodic (pp, c)) kc x with
+            | Some v -> Printf.printf "%s %s\n" (hex v) (hex v)
+            | None -> Printf.printf "typeerror\n")
          | "HW" -> let pp = nf () in let c = nf () in let kk = nf () in let ww = nf () in let lk = nf () in let uk = nf () in
            let lo = nf () in let up = nf () in let x = nf () in
            let k = if pp <> 0.0 then KPeriodic (pp, c) else KScalar in
